@@ -68,6 +68,9 @@ type Call struct {
 	Listener int `json:"listener,omitempty"`
 
 	CancelAtUs int64 `json:"cancelAtUs,omitempty"` // >0: cancel the call's context at this instant (relative to run start)
+	// PreCancelled: the context handed to the entry point is already cancelled (a caller whose deadline
+	// has passed, a client that went away before the handler ran)
+	PreCancelled bool `json:"preCancelled,omitempty"`
 
 	// scripted-driver engines
 	Script *EngineScript `json:"script,omitempty"`
@@ -195,9 +198,15 @@ type Knobs struct {
 	// sentinel); FreeFailAll fails every construction
 	FreeFailNew []int `json:"freeFailNew,omitempty"`
 	FreeFailAll bool  `json:"freeFailAll,omitempty"`
+	// MustClosePort: the handles are of the kind that tell the run to release the port it reserved
+	// (SourceSinkHandle.MustClosePort, what a platform without a capture driver reports)
+	MustClosePort bool `json:"mustClosePort,omitempty"`
 	// free-running mode only: the k-th WriteTo of every handle fails (the error paths of the senders
 	// run while the receivers are looking replies up)
 	FreeFailWrite int `json:"freeFailWrite,omitempty"`
+	// free-running mode only: SACK targets negotiate TCP timestamps and their clock ticks between
+	// the acknowledgements they send
+	FreeTimestamps bool `json:"freeTimestamps,omitempty"`
 	FreshCache  bool  `json:"freshCache,omitempty"` // false keeps the cache of the previous call in the same scenario only
 }
 
